@@ -10,12 +10,17 @@ Inductive obs := OOut (b : string) | OPanic.
 (* what the library answered: a list of (start, length), or a panic *)
 Inductive lobs := LMatches (l : list (nat * nat)) | LPanic.
 
+(* what was observed of a whole `esc run`: the arguments the command received (None: it was not run), what esc
+   forwarded on the stream the command wrote its arguments and script to, what it forwarded on the other stream
+   (where the command wrote script2), and whether esc itself reported an error *)
+Record cmd_obs := { co_args : option (list string); co_main : obs; co_other : obs; co_err : bool }.
+
 Inductive case :=
 | CRun (secrets chunks : list string) (impl : obs)
 | CLib (pats : list string) (text ph : string) (findall overlapping : lobs) (replace : obs)
 (* the whole `esc run` command: opened environment, arguments, what the command prints after its arguments;
    observed: the arguments the command received (None: it did not run) and what esc forwarded *)
-| CCmd (root : evalue) (args : list (list part)) (script : string) (impl_args : option (list string)) (impl : obs).
+| CCmd (root : evalue) (args : list (list part)) (e : child_end) (script script2 : string) (o : cmd_obs).
 
 Definition bl (l : list string) : list bytes := map chars l.
 
@@ -95,10 +100,13 @@ Definition mismatch (c : case) : bool :=
                    | Out o => bytes_eqb o (redact (chars ph) ps t)
                    | Panic => false
                    end))
-  | CCmd root args script iargs impl =>
+  | CCmd root args e script script2 o =>
       cmd_modelled root args
-      && (negb (match iargs with Some l => list_bytes_eqb (bl l) (cmd_args root args) | None => false end)
-          || negb (result_obs_eqb (Out (cmd_out params arg_secrets_deep root args (chars script))) impl))
+      && (let '(m1, m2, merr) := cmd_run params arg_secrets_deep root args e (chars script) (chars script2) in
+          negb (match co_args o with Some l => list_bytes_eqb (bl l) (cmd_args root args) | None => false end)
+          || negb (result_obs_eqb (Out m1) (co_main o))
+          || negb (result_obs_eqb (Out m2) (co_other o))
+          || negb (Bool.eqb merr (co_err o)))
   end.
 
 (* ---- the specification, evaluated on the implementation's observation alone ---------------------- *)
@@ -140,20 +148,49 @@ Definition cmd_leak (cls : bytes -> bool) (root : evalue) (args : list (list par
 
 Definition cmd_stream_impl (iargs : list string) (script : string) : bytes := cmd_stream (bl iargs) (chars script).
 
+(* nothing is withheld: the bytes of what the command wrote that lie inside no occurrence (anywhere in the stream, lines
+   disregarded) of any non-empty secret must all be forwarded, in order - whatever the exit status of the command *)
+Fixpoint is_subseq (a b : bytes) {struct b} : bool :=
+  match b with
+  | [] => match a with [] => true | _ => false end
+  | y :: b' => match a with
+               | [] => true
+               | x :: a' => if Ascii.eqb x y then is_subseq a' b' else is_subseq a b'
+               end
+  end.
+
+Fixpoint keep_uncovered (w : bytes) (fl : list (bool * bool)) : bytes :=
+  match w, fl with
+  | c :: w', (cv, _) :: fl' => if cv then keep_uncovered w' fl' else c :: keep_uncovered w' fl'
+  | _, _ => []
+  end.
+
+Definition withheld (root : evalue) (args : list (list part)) (written out : bytes) : bool :=
+  let pats := nonempty_secrets (cmd_secrets true root args) in
+  negb (is_subseq (keep_uncovered written (flags pats 0 written)) out).
+
+(* one stream of a `cmd` case: [written] is what the command wrote to it, [out] what esc forwarded *)
+Definition cmd_stream_fail_new (root : evalue) (args : list (list part)) (written out : bytes) : bool :=
+  cmd_leak (fun p => negb (has_inner_newline p) && negb (nested_only root args p)) root args out
+  || (negb (existsb (fun p => contains p written) (nonempty_secrets (cmd_secrets true root args)))
+      && negb (bytes_eqb out written))
+  || withheld root args written out.
+
 (* failures that no known finding excuses: a panic, clean text changed, a line-local secret forwarded *)
 Definition spec_fail_new (c : case) : bool :=
   match c with
   | CRun secrets chunks OPanic => true
   | CRun secrets chunks (OOut o) => leak false secrets (chars o) || clean_changed secrets chunks (chars o)
   | CLib _ _ _ _ _ _ => false
-  | CCmd root args script (Some iargs) (OOut o) =>
-      (* the secrets' texts are computed with the modelled Value.ToString: only inside its class *)
-      cmd_modelled root args
-      && (cmd_leak (fun p => negb (has_inner_newline p) && negb (nested_only root args p)) root args (chars o)
-          || (negb (existsb (fun p => contains p (cmd_stream_impl iargs script))
-                            (nonempty_secrets (cmd_secrets true root args)))
-              && negb (bytes_eqb (chars o) (cmd_stream_impl iargs script))))
-  | CCmd _ _ _ _ _ => true
+  | CCmd root args e script script2 o =>
+      match co_args o, co_main o, co_other o with
+      | Some iargs, OOut m, OOut o2 =>
+          (* the secrets' texts are computed with the modelled Value.ToString: only inside its class *)
+          cmd_modelled root args
+          && (cmd_stream_fail_new root args (child_wrote e (cmd_stream_impl iargs script)) (chars m)
+              || cmd_stream_fail_new root args (child_wrote e (chars script2)) (chars o2))
+      | _, _, _ => true
+      end
   end.
 
 (* the recorded known finding C13-newline: some filtered secret has a newline before its last byte *)
@@ -161,13 +198,13 @@ Definition known (c : case) : bool :=
   match c with
   | CRun secrets _ _ => existsb has_inner_newline (filtered secrets)
   | CLib _ _ _ _ _ _ => false
-  | CCmd root args _ _ _ => existsb has_inner_newline (spec_secrets root args)
+  | CCmd root args _ _ _ _ => existsb has_inner_newline (spec_secrets root args)
   end.
 
 (* C13-nested-arg: some secret is only nested inside an interpolated value (and the source collects own flags only) *)
 Definition known_nested (c : case) : bool :=
   match c with
-  | CCmd root args _ _ _ => existsb (nested_only root args) (spec_secrets root args)
+  | CCmd root args _ _ _ _ => existsb (nested_only root args) (spec_secrets root args)
   | _ => false
   end.
 
@@ -175,11 +212,17 @@ Definition known_nested (c : case) : bool :=
 Definition spec_fail_known (c : case) : bool :=
   match c with
   | CRun secrets chunks (OOut o) => known c && leak true secrets (chars o)
-  | CCmd root args _ (Some _) (OOut o) =>
-      cmd_modelled root args
-      && ((known c && cmd_leak has_inner_newline root args (chars o))
-          || (known_nested c
-              && cmd_leak (fun p => negb (has_inner_newline p) && nested_only root args p) root args (chars o)))
+  | CCmd root args _ _ _ o =>
+      match co_args o, co_main o, co_other o with
+      | Some _, OOut m, OOut o2 =>
+          cmd_modelled root args
+          && ((known c && (cmd_leak has_inner_newline root args (chars m)
+                           || cmd_leak has_inner_newline root args (chars o2)))
+              || (known_nested c
+                  && (cmd_leak (fun p => negb (has_inner_newline p) && nested_only root args p) root args (chars m)
+                      || cmd_leak (fun p => negb (has_inner_newline p) && nested_only root args p) root args (chars o2))))
+      | _, _, _ => false
+      end
   | _ => false
   end.
 
@@ -189,9 +232,10 @@ Definition nontrivial (c : case) : bool :=
   match c with
   | CRun secrets chunks _ => existsb (fun p => contains p (concat (bl chunks))) (filtered secrets)
   | CLib pats text _ _ _ _ => negb (Nat.eqb (length (lib_overlapping (bl pats) (chars text))) 0)
-  | CCmd root args script _ _ =>
+  | CCmd root args e script script2 _ =>
       cmd_modelled root args
-      && existsb (fun p => contains p (cmd_stream (cmd_args root args) (chars script))) (spec_secrets root args)
+      && existsb (fun p => contains p (child_wrote e (cmd_stream (cmd_args root args) (chars script)))
+                           || contains p (child_wrote e (chars script2))) (spec_secrets root args)
   end.
 
 (* ---- wire format ---- *)
@@ -270,6 +314,14 @@ Definition decode_impl_args (x : sexp) : option (option (list string)) :=
   | _ => match slist_of atom_str x with Some l => Some (Some l) | None => None end
   end.
 
+Definition decode_child_end (x : sexp) : option child_end :=
+  match x with
+  | Atom "ok" => Some ChildExit0
+  | Atom "fail" => Some ChildFails
+  | Atom "nostart" => Some ChildNoStart
+  | _ => None
+  end.
+
 Definition decode (x : sexp) : option case :=
   match x with
   | SList [Atom "run"; secrets; chunks; o] =>
@@ -281,11 +333,16 @@ Definition decode (x : sexp) : option case :=
           match decode_lobs fa, decode_lobs ov, decode_obs rep with
           | Some fa, Some ov, Some rep => Some (CLib p t h fa ov rep) | _, _, _ => None end
       | _, _, _ => None end
-  | SList [Atom "cmd"; root; args; script; iargs; o] =>
-      match decode_value root, slist_of (slist_of decode_part) args, atom_str script with
-      | Some root, Some args, Some script =>
-          match decode_impl_args iargs, decode_obs o with
-          | Some ia, Some o => Some (CCmd root args script ia o) | _, _ => None end
+  | SList [Atom "cmd"; root; args; e; SList [script; script2]; iargs; SList [o; o2; err]] =>
+      match decode_value root, slist_of (slist_of decode_part) args, decode_child_end e with
+      | Some root, Some args, Some e =>
+          match atom_str script, atom_str script2, decode_impl_args iargs with
+          | Some script, Some script2, Some ia =>
+              match decode_obs o, decode_obs o2, atom_bool err with
+              | Some o, Some o2, Some err =>
+                  Some (CCmd root args e script script2 {| co_args := ia; co_main := o; co_other := o2; co_err := err |})
+              | _, _, _ => None end
+          | _, _, _ => None end
       | _, _, _ => None end
   | _ => None
   end.
